@@ -316,26 +316,33 @@ func genProxy(g *fact.Gen) {
 		}
 		g.Emit("/-- handler: extensions answered with the data of the first archive file named `wantPrefix ++ ext`. -/\ndef fileExts : List GIV.Bytes := %s\ndef wantPrefix : GIV.Bytes := %s\n/-- handler: extension answered with the zip. -/\ndef zipExt : GIV.Bytes := %s\n", leanBytesList(exts), fact.LeanBytes(want), fact.LeanBytes(zipExt))
 	}
-	// list filter
+	// list filter: the loop is recognised up to the set of conjuncts of its condition and the presence of the Check guard
 	{
-		whole := strings.Contains(hSrc, `for_,m:=rangesrv.modList{ifm.Path==path&&!isPseudoVersion(m.Version){iferr:=module.Check(m.Path,m.Version);err==nil{fmt.Fprintf(w,"%s\n",m.Version)n++}}}ifn==0{http.NotFound(w,r)}return`)
-		emit := func(name, doc, needle string) {
-			emitBoolShape(g, name, doc, true, func() (bool, bool, string) {
-				if whole {
-					return true, true, ""
+		m := regexp.MustCompile(`iffile=="[^"]*"\{n:=0for_,m:=rangesrv\.modList\{if([^{}]*)\{(iferr:=module\.Check\(m\.Path,m\.Version\);err==nil\{)?fmt\.Fprintf\(w,"%s\\n",m\.Version\)n\+\+\}(\})?\}ifn==0\{http\.NotFound\(w,r\)\}return\}`).FindStringSubmatch(hSrc)
+		path, pseudo, chk, why := true, true, true, ""
+		if m == nil {
+			why = "list loop has an unrecognised shape"
+		} else if (m[2] == "") != (m[3] == "") {
+			why = "list loop has an unrecognised shape (braces)"
+		} else {
+			path, pseudo, chk = false, false, m[2] != ""
+			for _, c := range strings.Split(m[1], "&&") {
+				switch c {
+				case "m.Path==path":
+					path = true
+				case "!isPseudoVersion(m.Version)":
+					pseudo = true
+				default:
+					why = "unrecognised conjunct in the list condition: " + c
 				}
-				i := strings.Index(hSrc, `iffile==`)
-				j := strings.Index(hSrc, `strings.LastIndex(file`)
-				if i < 0 || j < i {
-					return false, false, "list branch not found"
-				}
-				// the loop has changed shape: report what is still visible, but as lost
-				return strings.Contains(hSrc[i:j], needle), false, "list loop has an unrecognised shape"
-			})
+			}
 		}
-		emit("listMatchesPath", "list endpoint: only entries with `m.Path == path`", "m.Path==path")
-		emit("listExcludesPseudo", "list endpoint: only entries with `!isPseudoVersion(m.Version)`", "!isPseudoVersion(m.Version)")
-		emit("listRequiresCheck", "list endpoint: only entries with `module.Check(m.Path, m.Version) == nil`; one line `version\\n` each, in modList order; no line at all = 404", "module.Check(m.Path,m.Version);err==nil")
+		emit := func(name, doc string, v bool) {
+			emitBoolShape(g, name, doc, true, func() (bool, bool, string) { return v, why == "", why })
+		}
+		emit("listMatchesPath", "list endpoint: only entries with `m.Path == path`", path)
+		emit("listExcludesPseudo", "list endpoint: only entries with `!isPseudoVersion(m.Version)`", pseudo)
+		emit("listRequiresCheck", "list endpoint: only entries with `module.Check(m.Path, m.Version) == nil`; one line `version\\n` each, in modList order; no line at all = 404", chk)
 	}
 	// commit-hash loop
 	emitBoolShape(g, "hashLoopShape", "handler: `if allHex(vers)`: best := \"\"; for m in modList with m.Path == path && semver.Compare(best, m.Version) < 0: hash := (pseudo ? text after the last '-' : findHash(m)); if HasPrefix(hash, vers) || HasPrefix(vers, hash) then best = m.Version; finally `if best != \"\" { vers = best }`.", true, func() (bool, bool, string) {
